@@ -417,6 +417,111 @@ func checkCompositeReuse(rep *Reporter, g *gen.FieldGen, r *gen.Rng) {
 	})
 }
 
+// checkNestedReuse: what a rejected input leaves behind INSIDE nested composites. One composite
+// object: Unpack of a valid encoding cut at some offset (it fails somewhere inside a nested
+// composite), then Unpack of an encoding without the nested composites, then a Marshal that sets
+// the nested composites again with only some of their leaves. A new object given the last two
+// steps must look the same: nothing of the rejected input may come back.
+func checkNestedReuse(rep *Reporter, g *gen.FieldGen, r *gen.Rng) {
+	spec := g.Comp(2+r.Intn(2), false)
+	ss := spec.String()
+	vA := g.Value(spec, false)
+	if vA == nil || vA.Name != "c" {
+		return
+	}
+	vB, sp := impl.N("c"), impl.N("c")
+	leaves := 0
+	for _, kv := range vA.Kids {
+		if len(kv.Kids) == 2 && kv.Kids[1].Name == "c" {
+			n := 1 // drop the first leaf, keep the second, …
+			sp.Kids = append(sp.Kids, impl.N("kv", kv.Kids[0], sparseTree(kv.Kids[1], &n)))
+			leaves += n - 1
+		} else {
+			vB.Kids = append(vB.Kids, kv)
+		}
+	}
+	if len(sp.Kids) == 0 || leaves < 2 {
+		return
+	}
+	wA, okA := impl.UnHex(strings.TrimPrefix(impl.Run("F "+ss+" pack "+vA.String()), "ok "))
+	wB, okB := impl.UnHex(strings.TrimPrefix(impl.Run("F "+ss+" pack "+vB.String()), "ok "))
+	if !okA || !okB || len(wA) == 0 {
+		return
+	}
+	// inputs that are rejected somewhere inside: prefixes of the valid encoding, and the valid encoding
+	// with one byte changed (an inner length that no longer fits its template, a tag that is unknown, …)
+	var bads [][]byte
+	pos := func(k int) int {
+		if len(wA) <= 48 {
+			return k
+		}
+		return r.Intn(len(wA))
+	}
+	n := len(wA)
+	if n > 48 {
+		n = 48
+	}
+	for k := 0; k < n; k++ {
+		i := pos(k)
+		bads = append(bads, wA[:i])
+		for _, d := range []byte{1, 0xFF, 3} {
+			m := append([]byte{}, wA...)
+			m[i] += d
+			bads = append(bads, m)
+		}
+	}
+	for _, bad := range bads {
+		line := fmt.Sprintf("F %s unpack %s #then-unpack %s #then-marshal %s", ss, impl.Hex(bad), impl.Hex(wB), sp.String())
+		stop := false
+		safely(rep, line, func() {
+			used, _ := impl.FieldOfTree(spec)
+			fresh, _ := impl.FieldOfTree(spec)
+			used.Unpack(bad)
+			if _, err := used.Unpack(wB); err != nil {
+				return
+			}
+			if _, err := fresh.Unpack(wB); err != nil {
+				return
+			}
+			o1, o2 := impl.SetValue(used, sp), impl.SetValue(fresh, sp)
+			rep.Case(line)
+			t1, t2 := impl.ValueTree(used).String(), impl.ValueTree(fresh).String()
+			p1, e1 := used.Pack()
+			p2, e2 := fresh.Pack()
+			if o1 != o2 || t1 != t2 || (e1 == nil) != (e2 == nil) || !bytes.Equal(p1, p2) {
+				rep.Viol("a composite that rejected an input earlier differs from a new one after the same Unpack and Marshal (subfields of the rejected input came back)", line,
+					fmt.Sprintf("used: %v %s %x | new: %v %s %x", o1, t1, p1, o2, t2, p2))
+				stop = true
+			}
+		})
+		if stop {
+			return
+		}
+	}
+}
+
+// sparseTree: a composite value with every other leaf dropped (nested composites kept, made sparse themselves)
+func sparseTree(v *impl.Tree, n *int) *impl.Tree {
+	if v.Name != "c" {
+		return v
+	}
+	out := impl.N("c")
+	for _, kv := range v.Kids {
+		if len(kv.Kids) != 2 {
+			continue
+		}
+		if kv.Kids[1].Name == "c" {
+			out.Kids = append(out.Kids, impl.N("kv", kv.Kids[0], sparseTree(kv.Kids[1], n)))
+			continue
+		}
+		*n++
+		if *n%2 == 1 {
+			out.Kids = append(out.Kids, kv)
+		}
+	}
+	return out
+}
+
 // track fields unpacked twice on their own
 func checkTrackReuseH(rep *Reporter, r *gen.Rng) {
 	type mk struct {
@@ -521,6 +626,9 @@ func runC10(t gen.Tier, r *gen.Rng, rep *Reporter) {
 	})
 	for i := 0; i < t.N(300, 8000); i++ {
 		checkCompositeReuse(rep, g, r)
+	}
+	for i := 0; i < t.N(400, 8000); i++ {
+		checkNestedReuse(rep, g, r)
 	}
 	for i := 0; i < t.N(10, 200); i++ {
 		checkTrackReuseH(rep, r)
@@ -658,14 +766,17 @@ func packedBits(c *hcase, m *iso8583.Message, packed []byte, mtiSet bool) ([]int
 	return ids, true
 }
 
-
 func checkPresenceAgree(rep *Reporter, c *hcase) {
 	line := c.line(c.ops, "")
 	safely(rep, line, func() {
 		st := c.replay(c.ops)
 		m := st.Cur
 		got := reportedTree(msgFieldsByName(m)) // GetFields + GetSubfields, recursively
-		ptr := reflect.New(pointerStruct(map[string]field.Field(stringKeys(c.spec.Fields))))
+		ty := pointerStruct(map[string]field.Field(stringKeys(c.spec.Fields)))
+		// the same struct type is first used with a message of a SMALLER spec (every other data element
+		// left out): what Unmarshal learns about the type there must not stick to the type
+		primeUnmarshal(c.spec, ty)
+		ptr := reflect.New(ty)
 		uerr := m.Unmarshal(ptr.Interface())
 		copied := copiedTree(ptr.Elem())
 		rep.Case(line)
@@ -705,6 +816,28 @@ func checkPresenceAgree(rep *Reporter, c *hcase) {
 			}
 		}
 	})
+}
+
+func primeUnmarshal(spec *iso8583.MessageSpec, ty reflect.Type) {
+	defer func() { _ = recover() }()
+	small := &iso8583.MessageSpec{Name: spec.Name, Fields: map[int]field.Field{}}
+	ids := make([]int, 0, len(spec.Fields))
+	for id := range spec.Fields {
+		ids = append(ids, id)
+	}
+	sort.Ints(ids)
+	k := 0
+	for _, id := range ids {
+		if id >= 2 {
+			k++
+			if k%2 == 0 {
+				continue
+			}
+		}
+		small.Fields[id] = spec.Fields[id]
+	}
+	m := iso8583.NewMessage(small)
+	_ = m.Unmarshal(reflect.New(ty).Interface())
 }
 
 func stringKeys(m map[int]field.Field) map[string]field.Field {
@@ -1135,6 +1268,9 @@ func runC14(t gen.Tier, r *gen.Rng, rep *Reporter) {
 		checkUnsetDiscards(rep, c, r, g)
 	})
 	rep.Sample("H <spec> <history> => after every op: GetFields/GetSubfields == Unmarshal(struct of pointers) == packed bitmap bits == JSON members; unset then re-populate never resurrects")
+	for i := 0; i < t.N(300, 6000); i++ {
+		checkNestedReuse(rep, g, r)
+	}
 }
 
 // ---------------------------------------------------------------- C15
@@ -1413,6 +1549,14 @@ func checkCallerMemory(rep *Reporter, c *hcase, r *gen.Rng, g *gen.FieldGen) {
 		give(0, b, 0)
 	} else {
 		give(0, []byte(mtiV.Kids[0].Name), 0)
+	}
+	if r.Bool() {
+		// the bitmap field too can be handed a caller's slice (it is regenerated by Pack: into memory of its own)
+		bl := atoi(st.Kids[1].Kids[0].Name)
+		if bl <= 0 {
+			bl = 8
+		}
+		give(1, bytes.Repeat([]byte{0x25}, bl), r.Intn(2))
 	}
 	for _, f := range st.Kids[2:] {
 		id := atoi(f.Kids[0].Name)
